@@ -50,6 +50,18 @@ def main():
             shutil.rmtree(wt, ignore_errors=True)
     for row in rows:
         print(" | ".join(str(x) for x in row))
+    # record (development aid; the table in DESIGN.md section 11 is generated from this file)
+    rp = os.path.join(VERIF, "seeded", "RESULTS.json")
+    res = json.load(open(rp)) if os.path.exists(rp) else {}
+    for sid, prop, status, detail in rows:
+        if isinstance(prop, list):
+            prop = "+".join(prop)
+        kind = status
+        if status == "DETECTED":
+            kind = "DETECTED (K/T only, no-failing-input-found)" if "no-failing-input-found" in detail else \
+                   "DETECTED (failing input" + (", replay reproduces)" if "replay-reproduces" in detail else ")")
+        res.setdefault(sid, {})[prop] = kind
+    json.dump(res, open(rp, "w"), indent=1, sort_keys=True)
 
 if __name__ == "__main__":
     main()
